@@ -27,7 +27,10 @@ ASSUMPTIONS = [
 def sched(sid: int) -> dict:
     return {"hash_class": sid % grid.N_HASH_CLASSES,
             "uuid_seed": core.grid("c06-uuid", sid),
-            "order_seed": core.grid("c06-order", sid), "sched": sid}
+            "order_seed": core.grid("c06-order", sid), "sched": sid,
+            # event names: letters, words, or names that are joins/prefixes
+            # of each other (sid % 4 == 2)
+            "naming": sid % 4}
 
 
 def main(argv=None):
